@@ -371,6 +371,7 @@ Section RelSound.
                   HI' H) as [HP Hall].
       split; [exact HP|intros Hb]. eapply sub_partial_partial; [exact Hls|exact Hlp|exact Hnames|apply Hall; exact Hb].
     - (* callable / callable *)
+      rewrite andb_false_r in H.
       destruct (topo_callable _ _ _ _ Hls) as [Hp1 [Hr1 Hc1]].
       destruct (topo_callable _ _ _ _ Hlp) as [Hp2 [Hr2 Hc2]].
       (* the three component checks from any start set A0 that satisfies the invariant *)
@@ -393,6 +394,7 @@ Section RelSound.
       + eapply Hins; [|exact H]. intros b0 A2 Hr. eapply Hbody; [exact HIk|exact Hr].
       + eapply Hbody; [exact HI'|exact H].
     - (* process / process *)
+      rewrite andb_false_r in H.
       destruct (topo_process _ _ _ Hls) as [Hs1' Hr1'].
       destruct (topo_process _ _ _ Hlp) as [Hs2' Hr2'].
       match type of H with match ?e with _ => _ end = _ => destruct e as [[b1 A1']|] eqn:E1 end; [|discriminate].
